@@ -43,7 +43,7 @@ func (st *State) execBlock(stmts []ast.Stmt) []Outcome {
 				o.st.fc.topCall = topCall(s)
 			}
 			outs := o.st.exec(s)
-			if o.st.fc.inlineDepth == 0 && o.st.fc.curContract != nil && len(o.st.fc.curContract.Anchors) > 0 {
+			if o.st.fc.inlineDepth == 0 && o.st.fc.curContract != nil && (len(o.st.fc.curContract.Anchors) > 0 || o.st.fc.isRG()) {
 				if call := topCall(s); call != nil {
 					if ord, ok := o.st.fc.callOrd[call]; ok {
 						for _, oo := range outs {
@@ -522,7 +522,42 @@ func (st *State) execIf(x *ast.IfStmt) []Outcome {
 	return st.execIfCond(x)
 }
 
+// hasAtomicCall: the expression contains a call into sync/atomic (a side effect that must not be executed when a
+// short-circuit operator skips it)
+func (st *State) hasAtomicCall(e ast.Expr) bool {
+	found := false
+	ast.Inspect(e, func(n ast.Node) bool {
+		if call, ok := n.(*ast.CallExpr); ok {
+			if sel, ok := call.Fun.(*ast.SelectorExpr); ok {
+				if id, ok := sel.X.(*ast.Ident); ok {
+					if pn, ok := st.info().ObjectOf(id).(*types.PkgName); ok && pn.Imported().Path() == "sync/atomic" {
+						found = true
+					}
+				}
+			}
+		}
+		return !found
+	})
+	return found
+}
+
 func (st *State) execIfCond(x *ast.IfStmt) []Outcome {
+	elseF := func(s *State) []Outcome {
+		if x.Else == nil {
+			return normal(s)
+		}
+		return s.exec(x.Else)
+	}
+	if be, ok := ast.Unparen(x.Cond).(*ast.BinaryExpr); ok && be.Op == token.LAND && st.hasAtomicCall(be.Y) {
+		// a && atomicOp(): the right operand has a side effect and runs only when the left one holds
+		a := st.eval(be.X)
+		ca := st.define("c", "Bool", a.S)
+		return st.branch(ca, func(s *State) []Outcome {
+			b := s.eval(be.Y)
+			cb := s.define("c", "Bool", b.S)
+			return s.branch(cb, func(s2 *State) []Outcome { return s2.exec(x.Body) }, elseF)
+		}, elseF)
+	}
 	c := st.eval(x.Cond)
 	cond := st.define("c", "Bool", c.S)
 	return st.branch(cond, func(s *State) []Outcome { return s.exec(x.Body) }, func(s *State) []Outcome {
